@@ -102,6 +102,19 @@ fn build(lines: &[String], tags: &[&str], optimize: bool) -> Engine {
     }
     e
 }
+/// The same enabled set reached through a history of tag operations instead of one assignment:
+/// every tag of the universe is enabled first, the unwanted ones are disabled again (some of them
+/// carried by no plain blocking rule at all, only by exceptions / important / csp rules).
+fn build_via_history(lines: &[String], tags: &[&str]) -> Engine {
+    let mut e = Engine::from_rules_parametrised(lines.iter(), Default::default(), true, false);
+    e.enable_tags(&["t3", "t1"]);
+    e.enable_tags(&["t2", "zz"]);
+    let off: Vec<&str> = ["t1", "t2", "t3", "zz"].iter().copied().filter(|t| !tags.contains(t)).collect();
+    for t in off.iter() {
+        e.disable_tags(&[*t]);
+    }
+    e
+}
 
 /// token guarantee: the rule is stored under one token of each group (0 for an empty group), so it
 /// is certainly found iff some group is entirely covered by the request's probes
@@ -282,7 +295,8 @@ fn main() {
         let tagsets: [&[&str]; 3] = [&[], &["t1"], &["t1", "t2", "t3"]];
         let tags: &[&str] = tagsets[r.below(3)];
         let tagset: HashSet<String> = tags.iter().map(|s| s.to_string()).collect();
-        let e = build(&lines, tags, false);
+        // a third of the engines reach their tag set through enable / disable calls
+        let e = if li % 3 == 1 { cs.stat("engine_tags_via_history"); build_via_history(&lines, tags) } else { build(&lines, tags, false) };
         let bd = dump_engine_blocker(&e);
         // WellIndexed on every dumped list, against the rules the model puts into that list
         let model_lists = [
@@ -307,6 +321,25 @@ fn main() {
             json!({"fn": "well_indexed(all 8 lists)", "rules": lines, "tags": tags}),
             !rules.is_empty(),
         );
+
+        // the incremental path: NetworkFilterList::new on a prefix, add_filter for the rest (one list,
+        // no category split): WellIndexed of the dumped buckets against all the rules added
+        if rules.len() >= 2 {
+            let mut seen = HashSet::new();
+            let uniq: Vec<NetworkFilter> = rules.iter().filter(|f| seen.insert(f.id)).cloned().collect();
+            let k = r.below(uniq.len());
+            let mut fl = adblock::verif_hooks::FilterList::new(uniq[..k].to_vec(), false);
+            for f in uniq[k..].iter() {
+                fl.add_filter(f.clone());
+            }
+            let ud: Vec<FilterDump> = uniq.iter().map(dump_filter).collect();
+            cs.stat("index_incremental");
+            cs.case(
+                format!("well_indexed_b seahash {} {}", coq_rules(&ud), coq_dump(&fl.dump())),
+                json!({"fn": "well_indexed(new on a prefix + add_filter)", "rules": lines, "prefix": k}),
+                uniq.iter().any(|f| f.get_tokens().len() > 1),
+            );
+        }
 
         let nq = 3;
         for _ in 0..nq {
